@@ -62,7 +62,7 @@ Proof. unfold set_window_in_window_threshold. intros H. split; [lia|intros H1; l
 
 (* ---- list helpers --------------------------------------------------------------------------- *)
 Lemma sum_app a b : sum (a ++ b) = sum a + sum b.
-Proof. induction a as [|x a IH]; cbn; [lia|]. fold (sum (a ++ b)). fold (sum a). lia. Qed.
+Proof. induction a as [|x a IH]; [reflexivity|]. change (x + sum (a ++ b) = x + sum a + sum b). lia. Qed.
 
 Lemma dsum_app a b : dsum (a ++ b) = dsum a + dsum b.
 Proof. unfold dsum. rewrite map_app. apply sum_app. Qed.
@@ -101,7 +101,7 @@ Lemma Forall_snoc {A} (P : A -> Prop) l a : Forall P l -> P a -> Forall P (l ++ 
 Proof. intros. apply Forall_app. split; [assumption|constructor; [assumption|constructor]]. Qed.
 
 Lemma sum_nonneg l : Forall (fun a => 0 < a) l -> 0 <= sum l.
-Proof. induction 1; cbn; [lia|]. fold (sum l). lia. Qed.
+Proof. induction 1 as [|a l Ha _ IH]; [cbn; lia|]. change (0 <= a + sum l). lia. Qed.
 
 Definition pos_le (b : Z) (m : dmsg) : Prop := 0 < dlen m <= b.
 
@@ -178,7 +178,7 @@ Proof.
     + now apply Forall_snoc.
     + now constructor.
   - (* ODeliver *)
-    destruct (dwire s) as [|m r] eqn:E; [constructor; try assumption; now rewrite E|].
+    destruct (dwire s) as [|m r] eqn:E; [constructor; cbn [fst]; rewrite ?E; assumption|].
     rewrite dsum_cons in i_wire0. inversion i_dwire0 as [|? ? Hm Hr]; subst.
     unfold pos_le in Hm.
     destruct m as [l|c l]; cbn [dlen] in *.
@@ -186,7 +186,8 @@ Proof.
     + destruct (ext_discarded c).
       * destruct ext_discard_credits eqn:Ecr.
         -- destruct (credit s l) as [[sf ab] gr] eqn:Ec.
-           destruct (credit_spec _ _ _ _ _ i_sofar0 ltac:(lia) i_abox0 Ec) as (H1 & H2 & H3 & H4 & _).
+           assert (Hl : 0 <= l) by lia.
+           destruct (credit_spec _ _ _ _ _ i_sofar0 Hl i_abox0 Ec) as (H1 & H2 & H3 & H4 & _).
            constructor; prj; try assumption; try lia.
         -- constructor; prj; try assumption; try lia. intros; discriminate.
       * destruct (comb s); constructor; prj; try assumption; lia.
@@ -207,9 +208,10 @@ Proof.
     + now apply Forall_remove_nth.
     + now apply Forall_snoc.
   - (* ODeliverAdj *)
-    destruct (awire s) as [|a r] eqn:E; [constructor; try assumption; now rewrite E|].
+    destruct (awire s) as [|a r] eqn:E; [constructor; cbn [fst]; rewrite ?E; assumption|].
     rewrite sum_cons in i_adj0. inversion i_awire0 as [|? ? Ha Hr]; subst.
-    constructor; prj; rewrite ?window_adjust_spec; try assumption; lia.
+    pose proof (window_adjust_spec (ow s) a) as Hwa.
+    constructor; prj; try assumption; lia.
 Qed.
 
 Lemma step_const s o : omp (fst (step s o)) = omp s /\ thr (fst (step s o)) = thr s /\
@@ -277,8 +279,10 @@ Lemma packet W0 P W dmp c ops :
 Proof.
   intros H0 HW Hwf s. destruct (run_inv W0 ops _ (init_inv W0 P W dmp c H0 HW) Hwf).
   destruct (run_const ops (init W0 P W dmp c)) as (Ho & _).
-  fold s in i_obox0, i_dwire0, i_elog0, Ho. rewrite Ho in *.
-  destruct (init_fields W0 P W dmp c) as (-> & _).
+  fold s in i_obox0, i_dwire0, i_elog0, Ho.
+  destruct (init_fields W0 P W dmp c) as (Hi & _).
+  assert (Hs : omp s = sanitize_packet_size dmp (Some P)) by congruence.
+  rewrite Hs in i_obox0, i_dwire0, i_elog0.
   assert (A : Forall (pos_le (sanitize_packet_size dmp (Some P) - 64)) (elog s ++ dwire s ++ obox s)).
   { rewrite !Forall_app. auto. }
   split; [exact A|]. intros HP. pose proof (sanitize_packet_hi dmp P HP).
